@@ -6,7 +6,7 @@ set -u
 D=$(readlink -f "$1"); TIER=${2:-quick}; SEED=${3:-0}; shift; shift 2>/dev/null; shift 2>/dev/null
 PROP=$(/venv/bin/python -c "import json,sys; print(json.load(open('$D/meta.json'))['property'])" 2>/dev/null || basename $D | cut -d_ -f1)
 WT=$(mktemp -d /tmp/allfed_seeded_XXXXXX); EV=$(mktemp -d /tmp/allfed_seeded_ev_XXXXXX)
-git -C /repo worktree add -q --detach "$WT" HEAD >/dev/null 2>&1
+git -C /repo worktree add -q --detach "$WT" "${BASE:-HEAD}" >/dev/null 2>&1
 DEMO=$(ls $D/demo*.py | head -1)
 ( cd $WT && PYTHONPATH=$WT timeout 600 /venv/bin/python $DEMO >/tmp/seeded_clean_$$.log 2>&1 ); RC_CLEAN=$?
 if ! git -C "$WT" apply "$D/patch.diff"; then echo "PATCH-DOES-NOT-APPLY $D"; git -C /repo worktree remove --force "$WT"; exit 3; fi
